@@ -103,3 +103,43 @@ func TestManyGroupsOneTick(t *testing.T) {
 	sub := vf.Cur().Sub("many-groups-one-tick", fmt.Sprintf(rule, "targeted: 48 groups (1-3 alerts each) created by one POST flush at the same virtual instants in parallel to two integrations, unchanged for ten group intervals"), 4)
 	sysrun.Run(t, "C04", sub, sysrun.Family{Name: "mg", Quick: 12, Thorough: 400, NonTrivial: nt, Gen: manyGroupsOneTick}, checkers(0))
 }
+
+// slowDeliveries: deliveries that take longer than group_interval (possible whenever group_interval is
+// below the 10 s minimum pipeline time-out: the next tick is armed before the flush), so flushes carry
+// ticks older than the log entry written by the previous delivery; and a reload that stops the
+// dispatcher while a delivery is in flight which nevertheless succeeds. An unchanged group must not
+// be notified again in either case.
+func slowDeliveries(r *rand.Rand) *scen.Scenario {
+	gw := time.Second
+	gi := gen.Pick(r, []time.Duration{2 * time.Second, 5 * time.Second})
+	ri := time.Hour
+	reload := r.Intn(2) == 0
+	delay := gi + gen.Pick(r, []time.Duration{500 * time.Millisecond, time.Second, 2500 * time.Millisecond})
+	kind := "slow"
+	if reload {
+		// the stopped dispatcher's delivery completes (successfully) well before the new dispatcher's first
+		// flush, which comes one group_wait after the reload
+		gw, gi, delay, kind = 8*time.Second, 30*time.Second, gen.Pick(r, []time.Duration{2 * time.Second, 4 * time.Second}), "slowdeaf"
+	}
+	gb := []string{"alertname"}
+	cfg := &scen.Config{ResolveTimeout: 5 * time.Minute,
+		Route:     &model.RouteSpec{Receiver: "r0", GroupBy: &gb, GroupWait: &gw, GroupInterval: &gi, RepeatInterval: &ri},
+		Receivers: []scen.Receiver{{Name: "r0", Integs: []scen.Integ{{SendResolved: true}}}}}
+	s := &scen.Scenario{Config: cfg, Duration: 6 * time.Minute, Retention: 120 * time.Hour, MaintenanceInterval: 15 * time.Minute}
+	s.Faults = append(s.Faults, scen.Fault{Receiver: "r0", Idx: 0, From: 0, To: s.Duration, Kind: kind, Delay: delay})
+	end := 10 * time.Minute
+	t0 := 3*time.Second + time.Duration(1+r.Intn(900))*time.Millisecond
+	for at := t0; at < s.Duration; at += 45 * time.Second {
+		s.Ops = append(s.Ops, scen.Op{At: at, Kind: "alerts", Alerts: []scen.PostSpec{{Labels: model.Labels{"alertname": "A", "sev": "crit"}, EndOff: &end}, {Labels: model.Labels{"alertname": "A", "sev": "warn"}, EndOff: &end}}})
+	}
+	if reload {
+		s.Ops = append(s.Ops, scen.Op{At: t0 + gw + gen.Pick(r, []time.Duration{300 * time.Millisecond, time.Second}), Kind: "reload", Config: cfg})
+	}
+	sort.SliceStable(s.Ops, func(i, j int) bool { return s.Ops[i].At < s.Ops[j].At })
+	return s
+}
+
+func TestSlowDeliveries(t *testing.T) {
+	sub := vf.Cur().Sub("slow-deliveries", fmt.Sprintf(rule, "targeted: every delivery takes longer than group_interval (2-5 s, below the 10 s minimum pipeline time-out), so flush ticks are older than the log entry of the previous delivery; in half of the cases a reload stops the dispatcher in the middle of the first delivery, which still completes successfully; the unchanged group must not be notified again"), 8)
+	sysrun.Run(t, "C04", sub, sysrun.Family{Name: "slowd", Quick: 30, Thorough: 1500, NonTrivial: func(c map[string]int64) bool { return c["notifications_judged"] >= 1 }, Gen: slowDeliveries}, checkers(0))
+}
